@@ -1,19 +1,27 @@
 #!/bin/bash
 # Build the model driver: extraction (coqc on coq/C09/Extract_C09.v, after GcModel.vo exists) + ocamlfind ocamlopt.
 # Usage: build.sh   (idempotent; rebuilds when GcModel.v / Extract_C09.v / driver.ml are newer than the binary)
+# All generated / compiled output goes to ocaml/C09/_build/ (git-ignored); nothing is written next to the sources.
 set -eu
 HERE="$(cd "$(dirname "$0")" && pwd)"
 COQ="$HERE/../../coq"
-mkdir -p "$HERE/gen"
-BIN="$HERE/gen/driver"
-if [ ! -x "$BIN" ] || [ "$COQ/C09/GcModel.v" -nt "$BIN" ] || [ "$COQ/C09/Extract_C09.v" -nt "$BIN" ] || [ "$HERE/driver.ml" -nt "$BIN" ]; then
-  cd "$HERE/gen"
-  if [ ! -f "$COQ/C09/GcModel.vo" ] || [ "$COQ/C09/GcModel.v" -nt "$COQ/C09/GcModel.vo" ]; then
-    echo "GcModel.vo missing or stale (build it through the Coq Makefile first)" >&2
-    exit 3
+OUT="$HERE/_build"
+mkdir -p "$OUT"
+BIN="$OUT/driver"
+(
+  flock 9
+  if [ ! -x "$BIN" ] || [ "$COQ/C09/GcModel.v" -nt "$BIN" ] || [ "$COQ/C09/Extract_C09.v" -nt "$BIN" ] || [ "$HERE/driver.ml" -nt "$BIN" ] || [ "$HERE/build.sh" -nt "$BIN" ]; then
+    if [ ! -f "$COQ/C09/GcModel.vo" ] || [ "$COQ/C09/GcModel.v" -nt "$COQ/C09/GcModel.vo" ]; then
+      echo "GcModel.vo missing or stale (build it through the Coq Makefile first)" >&2
+      exit 3
+    fi
+    # Extract_C09.v writes ../ocaml/C09/_build/gcmodel.ml{,i} relative to coq/ (the .vo goes to _build too)
+    (cd "$COQ" && timeout 600 coqc -noglob -Q Common Common -Q C09 C09 -o "$OUT/Extract_C09.vo" C09/Extract_C09.v) > "$OUT/extract.log" 2>&1
+    cd "$OUT"
+    cp "$HERE/driver.ml" "$OUT/driver.ml"
+    timeout 600 ocamlfind ocamlopt -O3 -w -a -package str gcmodel.mli gcmodel.ml driver.ml -o driver.tmp 2>/dev/null \
+      || timeout 600 ocamlfind ocamlopt -w -a -package str gcmodel.mli gcmodel.ml driver.ml -o driver.tmp
+    mv driver.tmp driver
   fi
-  timeout 600 coqc -noglob -Q "$COQ/Common" Common -Q "$COQ/C09" C09 -o "$HERE/gen/Extract_C09.vo" "$COQ/C09/Extract_C09.v" > "$HERE/gen/extract.log" 2>&1
-  cp "$HERE/driver.ml" "$HERE/gen/driver.ml"
-  timeout 600 ocamlfind ocamlopt -w -a -package str gcmodel.mli gcmodel.ml driver.ml -o driver
-fi
+) 9> "$OUT/.lock"
 echo "$BIN"
